@@ -76,17 +76,26 @@ type c05mReader struct {
 	isAof   bool
 	start   int64
 	pos     int64
-	gen     int
-	wgen    int
-	sgen    int
+	stream  *c05mStream // the stream history it was opened on
+	snapS   *c05mSnap   // the snapshot it was opened on
 	closed  bool
+	pipeCap int  // capacity of its pipe (Available() when empty)
+	mustEnd bool // invalidated: must end or fail (reset, snapshot lost, writer ended without successor)
+	mayEnd  bool // its writer was replaced since it was opened: may end or follow on
 	pending *c05mPending
 }
 
-type c05mHist struct {
-	hbase int64
-	hist  []byte
-	snap  []byte
+// c05mStream is the oracle's record of one contiguous stream history.
+type c05mStream struct {
+	base  int64
+	bytes []byte
+}
+
+// c05mSnap is the oracle's record of one snapshot.
+type c05mSnap struct {
+	left, size int64
+	bytes      []byte
+	done, live bool
 }
 
 type c05mem struct {
@@ -98,17 +107,8 @@ type c05mem struct {
 	runId   string
 	nextId  int
 	// oracle
-	gen, wgen, sgen int
-	haveHist        bool
-	hbase           int64
-	hist            []byte
-	haveSnap        bool
-	snapLeft        int64
-	snapSize        int64
-	snap            []byte
-	snapDone        bool
-	snapLive        bool
-	past            map[int]*c05mHist
+	stream *c05mStream // current stream history (nil: none held)
+	snapS  *c05mSnap   // current snapshot (nil: none)
 	// live objects
 	aofW    AofChannelWriter
 	aofSR   *c05mStepReader
@@ -139,7 +139,14 @@ func (d *c05mem) replay(extra map[string]interface{}) map[string]interface{} {
 	return m
 }
 
-func (d *c05mem) right() int64 { return d.hbase + int64(len(d.hist)) }
+func (d *c05mem) right() int64 {
+	if d.stream == nil {
+		return -1
+	}
+	return d.stream.base + int64(len(d.stream.bytes))
+}
+
+func (d *c05mem) snapOffered() bool { return d.snapS != nil && (d.snapS.done || d.snapS.live) }
 
 func c05mDash(s string) string {
 	if s == "" {
@@ -157,7 +164,7 @@ func (d *c05mem) heldLeft() int64 {
 	if l, _, ok := mc.continuousAofRangeLocked(); ok {
 		return l
 	}
-	return d.right() + 1
+	return 1 << 60
 }
 
 func (d *c05mem) query(probes []int64) {
@@ -199,22 +206,21 @@ func (d *c05mem) query(probes []int64) {
 		}
 		d.s.Count("mon_valid_probe")
 		ok := false
-		if d.haveHist && p >= held && p <= d.right() {
+		if d.stream != nil && p >= held && p <= d.right() {
 			ok = true
 		}
-		if d.haveSnap && (d.snapDone || d.snapLive) && p <= d.snapLeft {
+		if d.snapOffered() && p <= d.snapS.left {
 			ok = true
 		}
 		if !ok {
-			d.s.Violate("valid-not-readable", fmt.Sprintf("IsValidOffset(%d)=true but no held bytes/snapshot cover it (held aof [%d,%d], snapshot have=%v left=%d done=%v live=%v bytes=%d/%d)",
-				p, held, d.right(), d.haveSnap, d.snapLeft, d.snapDone, d.snapLive, len(d.snap), d.snapSize), d.replay(map[string]interface{}{"offset": p}))
+			d.s.Violate("valid-not-readable", fmt.Sprintf("IsValidOffset(%d)=true but no held bytes/snapshot cover it (held aof [%d,%d], snapshot %+v)",
+				p, held, d.right(), d.snapS), d.replay(map[string]interface{}{"offset": p}))
 		}
 	}
 	if rl != -1 || rs != -1 {
 		d.s.Count("mon_rdb_offered")
-		if !(d.haveSnap && (d.snapDone || d.snapLive) && rl == d.snapLeft && rs == d.snapSize) {
-			d.s.Violate("snapshot-offered-incomplete", fmt.Sprintf("GetRdb()=(%d,%d) but snapshot have=%v done=%v live=%v bytes=%d/%d",
-				rl, rs, d.haveSnap, d.snapDone, d.snapLive, len(d.snap), d.snapSize), d.replay(nil))
+		if !(d.snapOffered() && rl == d.snapS.left && rs == d.snapS.size) {
+			d.s.Violate("snapshot-offered-incomplete", fmt.Sprintf("GetRdb()=(%d,%d) but snapshot is %+v", rl, rs, d.snapS), d.replay(nil))
 		}
 	}
 }
@@ -266,13 +272,13 @@ func (d *c05mem) probes() []int64 {
 			}
 		}
 	}
-	if d.haveHist {
-		add(d.hbase)
+	if d.stream != nil {
+		add(d.stream.base)
 		add(d.right())
-		add(d.hbase + int64(d.r.Intn(len(d.hist)+1)))
+		add(d.stream.base + int64(d.r.Intn(len(d.stream.bytes)+1)))
 	}
-	if d.haveSnap {
-		add(d.snapLeft)
+	if d.snapS != nil {
+		add(d.snapS.left)
 	}
 	l, r := d.mc.GetOffsetRange(d.runId)
 	if l >= 0 {
@@ -296,14 +302,10 @@ func (d *c05mem) observe() {
 // ---------------------------------------------------------------- operations
 
 func (d *c05mem) resetOracle() {
-	if d.past == nil {
-		d.past = map[int]*c05mHist{}
+	for _, vr := range d.readers {
+		vr.mustEnd = true
 	}
-	d.past[d.gen] = &c05mHist{d.hbase, d.hist, d.snap}
-	d.gen++
-	d.sgen++
-	d.haveHist, d.hbase, d.hist = false, 0, nil
-	d.haveSnap, d.snap, d.snapDone, d.snapLive = false, nil, false, false
+	d.stream, d.snapS = nil, nil
 }
 
 func (d *c05mem) dropWriters() {
@@ -320,9 +322,7 @@ func (d *c05mem) opNew(logSize, maxSize int64) {
 	d.mc = NewMemoryChannel(MemoryConf{InputId: "vf", MaxSize: maxSize, LogSize: logSize}).(*MemoryChannel)
 	d.logSize, d.maxSize = logSize, maxSize
 	d.runId = ""
-	d.gen, d.wgen, d.sgen = 0, 0, 0
-	d.past = nil
-	d.haveHist, d.hist, d.snap = false, nil, nil
+	d.readers = nil
 	d.resetOracle()
 	d.aofW, d.aofSR, d.rdbW, d.rdbSR = nil, nil, nil, nil
 	d.readers = map[int]*c05mReader{}
@@ -358,7 +358,7 @@ func (d *c05mem) opRdbWriter(off, size int64) {
 	if err == nil {
 		res = "ok"
 		d.rdbW, d.rdbSR = w, sr
-		d.haveSnap, d.snapLeft, d.snapSize, d.snapLive = true, off, size, true
+		d.snapS = &c05mSnap{left: off, size: size, live: true}
 		w.Start()
 	}
 	synctest.Wait()
@@ -394,16 +394,16 @@ func (d *c05mem) opRdbAppend(chunk []byte) {
 	n := c05mRdbWritten(w) - before
 	if res == "blocked" {
 		// the append is waiting for capacity: the harness gives up on this writer
-		d.snap = append(d.snap, chunk[:n]...)
+		d.snapS.bytes = append(d.snapS.bytes, chunk[:n]...)
 		d.emit("mrdba "+vfutil.Hex(chunk), fmt.Sprintf("blocked %d", n))
 		d.s.Count("rdb_append_blocked")
 		d.opRdbClose()
 		return
 	}
-	d.snap = append(d.snap, chunk...)
+	d.snapS.bytes = append(d.snapS.bytes, chunk...)
 	if res == "done" {
-		d.snapLive = false
-		d.snapDone = int64(len(d.snap)) == d.snapSize
+		d.snapS.live = false
+		d.snapS.done = int64(len(d.snapS.bytes)) == d.snapS.size
 		close(sr.data)
 		d.rdbW, d.rdbSR = nil, nil
 	}
@@ -415,10 +415,14 @@ func (d *c05mem) opRdbClose() {
 	w.Close()
 	close(sr.data)
 	d.rdbW, d.rdbSR = nil, nil
-	d.snapLive = false
-	d.snapDone = int64(len(d.snap)) == d.snapSize
-	if !d.snapDone {
-		d.sgen++
+	d.snapS.live = false
+	d.snapS.done = int64(len(d.snapS.bytes)) == d.snapS.size
+	if !d.snapS.done { // the snapshot is lost: its readers must end or fail
+		for _, vr := range d.readers {
+			if vr.snapS == d.snapS {
+				vr.mustEnd = true
+			}
+		}
 	}
 	synctest.Wait()
 	d.emit("mrdbc", "ok")
@@ -430,13 +434,26 @@ func (d *c05mem) opAofWriter(off int64) {
 	res := "err"
 	if err == nil {
 		res = "ok"
-		d.wgen++
 		if d.aofSR != nil {
 			close(d.aofSR.data)
 		}
 		d.aofW, d.aofSR = w, sr
-		if !d.haveHist {
-			d.haveHist, d.hbase, d.hist = true, off, nil
+		if d.stream == nil || off != d.right() {
+			// accepted although not continuing the recorded history: the channel
+			// held no stream segment any more; a new history starts here
+			for _, vr := range d.readers {
+				if vr.isAof {
+					vr.mustEnd = true
+				}
+			}
+			d.stream = &c05mStream{base: off}
+			d.s.Count("aof_new_history")
+		} else {
+			for _, vr := range d.readers {
+				if vr.isAof {
+					vr.mayEnd = true
+				}
+			}
 		}
 		w.Start()
 	}
@@ -453,7 +470,7 @@ func (d *c05mem) opAofAppend(chunk []byte) {
 	sr.data <- chunk
 	synctest.Wait()
 	if sr.ready() {
-		d.hist = append(d.hist, chunk...)
+		d.stream.bytes = append(d.stream.bytes, chunk...)
 		d.emit("maofa "+vfutil.Hex(chunk), "ok")
 		return
 	}
@@ -462,7 +479,7 @@ func (d *c05mem) opAofAppend(chunk []byte) {
 	if n < 0 || n > int64(len(chunk)) {
 		n = 0
 	}
-	d.hist = append(d.hist, chunk[:n]...)
+	d.stream.bytes = append(d.stream.bytes, chunk[:n]...)
 	d.emit("maofa "+vfutil.Hex(chunk), fmt.Sprintf("blocked %d", n))
 	d.s.Count("aof_append_blocked")
 	d.opAofClose()
@@ -470,6 +487,11 @@ func (d *c05mem) opAofAppend(chunk []byte) {
 
 func (d *c05mem) opAofClose() {
 	w, sr := d.aofW, d.aofSR
+	for _, vr := range d.readers {
+		if vr.isAof {
+			vr.mustEnd = true
+		}
+	}
 	w.Close()
 	close(sr.data)
 	d.aofW, d.aofSR = nil, nil
@@ -499,18 +521,25 @@ func (d *c05mem) opOpen(off int64) {
 		}
 		return
 	}
-	vr := &c05mReader{rd: rd, wait: usync.NewWaitCloser(nil), isAof: rd.IsAof(), start: off, gen: d.gen, wgen: d.wgen, sgen: d.sgen}
+	vr := &c05mReader{rd: rd, wait: usync.NewWaitCloser(nil), isAof: rd.IsAof(), start: off, stream: d.stream, snapS: d.snapS}
 	d.readers[rid] = vr
+	if mr, ok := rd.(*MemoryReader); ok {
+		vr.pipeCap, _ = mr.pipeW.Available()
+	}
 	rd.Start(vr.wait)
 	synctest.Wait()
 	if vr.isAof {
 		vr.pos = off
+		vr.mustEnd = d.aofW == nil
+		if vr.stream == nil {
+			vr.stream = &c05mStream{base: -1}
+		}
 		d.emit(op, fmt.Sprintf("aof %d", rd.Left()))
 		d.s.Count("open_aof")
 	} else {
 		d.emit(op, fmt.Sprintf("rdb %d %d", rd.Left(), rd.Size()))
 		d.s.Count("open_rdb")
-		if !(d.haveSnap && rd.Left() == d.snapLeft && rd.Size() == d.snapSize) {
+		if !(d.snapS != nil && rd.Left() == d.snapS.left && rd.Size() == d.snapS.size) {
 			d.s.Violate("snapshot-reader-mismatch", "snapshot reader does not describe the snapshot that was written", d.replay(nil))
 		}
 	}
@@ -519,68 +548,43 @@ func (d *c05mem) opOpen(off int64) {
 	}
 }
 
-func (d *c05mem) invalidated(vr *c05mReader) bool {
-	if vr.closed || vr.gen != d.gen {
-		return true
-	}
-	if vr.isAof && (vr.wgen != d.wgen || d.aofW == nil) {
-		// memory backend: a stream reader ends when its writer ends
-		return true
-	}
-	if !vr.isAof && vr.sgen != d.sgen {
-		return true
-	}
-	return false
-}
-
-func (d *c05mem) histOf(vr *c05mReader) *c05mHist {
-	if vr.gen == d.gen {
-		return &c05mHist{d.hbase, d.hist, d.snap}
-	}
-	return d.past[vr.gen]
-}
+func (d *c05mem) invalidated(vr *c05mReader) bool { return vr.closed || vr.mustEnd }
 
 func (d *c05mem) opRead(rid int, n int) {
 	vr := d.readers[rid]
 	op := fmt.Sprintf("mread %d %d", rid, n)
-	p := vr.pending
-	if p == nil {
-		p = &c05mPending{done: make(chan struct{}), buf: make([]byte, n)}
-		vr.pending = p
-		go func() {
-			defer close(p.done)
-			p.n, p.err = vr.rd.IoReader().Read(p.buf)
-		}()
+	// Never leave a Read pending (what a pending Read returns depends on how the
+	// scheduler interleaves it with the copy goroutine): ask the pipe first.
+	wouldBlock := false
+	if mr, ok := vr.rd.(*MemoryReader); ok && vr.rd.IoReader().Buffered() == 0 {
+		if avail, err := mr.pipeW.Available(); err == nil && avail == vr.pipeCap {
+			wouldBlock = true
+		}
 	}
-	synctest.Wait()
-	select {
-	case <-p.done:
-		vr.pending = nil
-	default:
+	if wouldBlock {
 		d.emit(op, "blocked")
 		d.s.Count("read_blocked")
 		if d.invalidated(vr) {
 			d.s.Violate("invalidated-reader-hangs", fmt.Sprintf("reader %d (start %d, pos %d) was invalidated but neither ends nor fails", rid, vr.start, vr.pos),
 				d.replay(map[string]interface{}{"reader": rid}))
-		} else if vr.isAof && vr.pos < d.right() || !vr.isAof && vr.pos < int64(len(d.snap)) {
-			d.s.Violate("reader-stuck", fmt.Sprintf("reader %d (start %d, pos %d) does not deliver although bytes are held (right %d, snapshot bytes %d)", rid, vr.start, vr.pos, d.right(), len(d.snap)),
+		} else if vr.isAof && vr.stream == d.stream && vr.pos < d.right() || !vr.isAof && vr.pos < int64(len(vr.snapS.bytes)) {
+			d.s.Violate("reader-stuck", fmt.Sprintf("reader %d (start %d, pos %d) does not deliver although bytes are held (right %d)", rid, vr.start, vr.pos, d.right()),
 				d.replay(map[string]interface{}{"reader": rid}))
 		}
 		return
 	}
+	p := &c05mPending{buf: make([]byte, n)}
+	p.n, p.err = vr.rd.IoReader().Read(p.buf)
 	inval := d.invalidated(vr)
 	if p.n > 0 {
 		b := p.buf[:p.n]
 		var want []byte
-		h := d.histOf(vr)
-		if h != nil {
-			if vr.isAof {
-				if vr.pos >= h.hbase && vr.pos+int64(p.n) <= h.hbase+int64(len(h.hist)) {
-					want = h.hist[vr.pos-h.hbase : vr.pos-h.hbase+int64(p.n)]
-				}
-			} else if vr.pos+int64(p.n) <= int64(len(h.snap)) {
-				want = h.snap[vr.pos : vr.pos+int64(p.n)]
+		if vr.isAof {
+			if h := vr.stream; h != nil && vr.pos >= h.base && vr.pos+int64(p.n) <= h.base+int64(len(h.bytes)) {
+				want = h.bytes[vr.pos-h.base : vr.pos-h.base+int64(p.n)]
 			}
+		} else if h := vr.snapS; h != nil && vr.pos+int64(p.n) <= int64(len(h.bytes)) {
+			want = h.bytes[vr.pos : vr.pos+int64(p.n)]
 		}
 		d.s.Add("mon_bytes_checked", p.n)
 		if want == nil || string(want) != string(b) {
@@ -593,7 +597,7 @@ func (d *c05mem) opRead(rid int, n int) {
 	}
 	if errors.Is(p.err, io.EOF) {
 		d.emit(op, "eof")
-		if !inval && (vr.isAof || vr.pos < d.snapSize) {
+		if !inval && !vr.mayEnd && (vr.isAof || vr.pos < vr.snapS.size) {
 			d.s.Violate("reader-ended", fmt.Sprintf("reader %d (start %d, pos %d) ended without being invalidated", rid, vr.start, vr.pos), d.replay(map[string]interface{}{"reader": rid}))
 		}
 		return
@@ -673,12 +677,12 @@ func (d *c05mem) step() bool {
 	} else if d.rdbW == nil {
 		add(12, func() {
 			off := int64(100 + r.Intn(900))
-			if d.haveHist {
+			if d.stream != nil {
 				off = d.right()
-			} else if d.haveSnap {
-				off = d.snapLeft
+			} else if d.snapS != nil {
+				off = d.snapS.left
 			}
-			if d.haveHist && r.Chance(1, 5) {
+			if d.stream != nil && r.Chance(1, 5) {
 				off += int64(r.Intn(5)) - 2
 			}
 			d.opAofWriter(off)
@@ -687,7 +691,7 @@ func (d *c05mem) step() bool {
 	}
 	if d.rdbW != nil {
 		add(30, func() {
-			rem := d.snapSize - int64(len(d.snap))
+			rem := d.snapS.size - int64(len(d.snapS.bytes))
 			n := int64(1 + r.Intn(int(rem)))
 			if r.Chance(1, 3) {
 				n = rem
@@ -715,8 +719,8 @@ func (d *c05mem) step() bool {
 				if r.Chance(1, 4) {
 					off = rr
 				}
-			case d.haveSnap && r.Chance(1, 2):
-				off = d.snapLeft - int64(r.Intn(3))
+			case d.snapS != nil && r.Chance(1, 2):
+				off = d.snapS.left - int64(r.Intn(3))
 			default:
 				off = int64(r.Intn(2500))
 			}
